@@ -104,20 +104,20 @@ impl MultiPeerBackend for XPubSocketBackend {
         let (recv_queue, send_queue) = io.into_parts();
 
         let conn = crate::backend::next_conn();
-        self.subscribers
-            .upsert_async(
-                peer_id.clone(),
-                XPubSubscriber {
-                    conn,
-                    subscriptions: vec![],
-                    send_queue: crate::backend::SubscriberQueue::new(send_queue),
-                },
-            )
-            .await;
-
+        let registered = crate::backend::register(
+            &self.subscribers,
+            peer_id,
+            XPubSubscriber {
+                conn,
+                subscriptions: vec![],
+                send_queue: crate::backend::SubscriberQueue::new(send_queue),
+            },
+        )
+        .await;
         self.fair_queue_inner
             .lock()
             .insert_conn(peer_id.clone(), conn, recv_queue);
+        drop(registered);
     }
 
     fn peer_disconnected(&self, peer_id: &PeerIdentity) {
@@ -130,9 +130,14 @@ impl MultiPeerBackend for XPubSocketBackend {
 impl crate::backend::ForgetConn for XPubSocketBackend {
     fn forget_conn(&self, peer_id: &PeerIdentity, conn: u64) {
         log::info!("Client disconnected {:?}", peer_id);
-        self.subscribers
-            .remove_if_sync(peer_id, |subscriber| subscriber.conn == conn);
+        // (all steps under the lock of the peer's bucket, see `backend::register`)
+        let registered = self.subscribers.entry_sync(peer_id.clone());
         self.fair_queue_inner.lock().remove_conn(peer_id, conn);
+        if let scc::hash_map::Entry::Occupied(registered) = registered {
+            if registered.get().conn == conn {
+                let _ = registered.remove_entry();
+            }
+        }
     }
 }
 
